@@ -180,6 +180,30 @@ static inline double cmb_wtdsummary_mean(const struct cmb_wtdsummary *wsp)
     return cmb_datasummary_mean((struct cmb_datasummary *)wsp);
 }
 
+/** @cond */
+/*
+ * The central moment sums m2..m4 are weighted sums, i.e. proportional to the
+ * scale of the weights. Rescale them to an equivalent sample of `count` unit
+ * weights (count = number of non-zero weights) so that the finite-sample
+ * formulas of the parent class apply and the results neither depend on the
+ * unit of the weights nor differ from the unweighted ones for unit weights.
+ */
+static inline struct cmb_datasummary cmi_wtdsummary_normalized(const struct cmb_wtdsummary *wsp)
+{
+    cmb_assert_release(wsp != NULL);
+
+    struct cmb_datasummary ds = wsp->ds;
+    if (wsp->wsum > 0.0) {
+        const double scale = (double)ds.count / wsp->wsum;
+        ds.m2 *= scale;
+        ds.m3 *= scale;
+        ds.m4 *= scale;
+    }
+
+    return ds;
+}
+/** @endcond */
+
 /**
  * @brief The weighted sample variance of the samples in the weighted data
  *        summary.
@@ -193,7 +217,8 @@ static inline double cmb_wtdsummary_variance(const struct cmb_wtdsummary *wsp)
 {
     cmb_assert_release(wsp != NULL);
 
-    return cmb_datasummary_variance((struct cmb_datasummary *)wsp);
+    const struct cmb_datasummary ds = cmi_wtdsummary_normalized(wsp);
+    return cmb_datasummary_variance(&ds);
 }
 
 /**
@@ -209,7 +234,8 @@ static inline double cmb_wtdsummary_stddev(const struct cmb_wtdsummary *wsp)
 {
     cmb_assert_release(wsp != NULL);
 
-    return cmb_datasummary_stddev((struct cmb_datasummary *)wsp);
+    const struct cmb_datasummary ds = cmi_wtdsummary_normalized(wsp);
+    return cmb_datasummary_stddev(&ds);
 }
 
 /**
@@ -225,7 +251,8 @@ static inline double cmb_wtdsummary_skewness(const struct cmb_wtdsummary *wsp)
 {
     cmb_assert_release(wsp != NULL);
 
-    return cmb_datasummary_skewness((struct cmb_datasummary *)wsp);
+    const struct cmb_datasummary ds = cmi_wtdsummary_normalized(wsp);
+    return cmb_datasummary_skewness(&ds);
 }
 
 /**
@@ -241,7 +268,8 @@ static inline double cmb_wtdsummary_kurtosis(const struct cmb_wtdsummary *wsp)
 {
     cmb_assert_release(wsp != NULL);
 
-    return cmb_datasummary_kurtosis((struct cmb_datasummary *)wsp);
+    const struct cmb_datasummary ds = cmi_wtdsummary_normalized(wsp);
+    return cmb_datasummary_kurtosis(&ds);
 }
 
 /**
